@@ -45,6 +45,10 @@ Second group (`translate_objects`): the small functions around the parsed zones,
   tzrangebase.__ne__                `return not (self == other)` over the translated `tzrange.__eq__`
   tzrangebase.__init__              `raise NotImplementedError(...)`
   _tzinfo._fold                     `getattr(dt, 'fold', 0)` = the datetime's fold (Python >= 3.6)
+Third group (`translate_factory_inits`, tz/_factories.py): the metaclass constructors `_TzSingleton.__init__`, `_TzOffsetFactory.__init__`,
+`_TzStrFactory.__init__` as the initial shared state `Fact.Glob` of the factory machine (C18): `weakref.WeakValueDictionary()` = the
+empty weak map, `OrderedDict()` = the empty strong cache, the integer literal = its capacity, `_thread.allocate_lock()` = a free lock,
+`cls.__instance = None` = an empty singleton slot; `super(...).__init__(*args, **kwargs)` (type.__init__) sets nothing.
 """
 import ast, os, hashlib
 from translate import Untranslatable, find_function
@@ -586,13 +590,51 @@ def translate_objects(tree, common):
     return "\n".join(out), fps
 
 
+def translate_factory_inits(tree):
+    out, fps = [], {}
+    for cls, lean in (("_TzSingleton", "tzSingleton_init"), ("_TzOffsetFactory", "tzOffsetFactory_init"), ("_TzStrFactory", "tzStrFactory_init")):
+        qual = cls + ".__init__"
+        fn = find_function(tree, qual)
+        if [a.arg for a in fn.args.args] != ["cls"] or not fn.args.vararg or not fn.args.kwarg: raise Untranslatable("signature of %s" % qual)
+        fields = {}
+        for st in fn.body:
+            if isinstance(st, ast.Expr) and isinstance(st.value, ast.Constant): continue
+            if isinstance(st, ast.Expr) and isinstance(st.value, ast.Call) and isinstance(st.value.func, ast.Attribute) and st.value.func.attr == "__init__" \
+                    and isinstance(st.value.func.value, ast.Call) and isinstance(st.value.func.value.func, ast.Name) and st.value.func.value.func.id == "super":
+                continue
+            if not (isinstance(st, ast.Assign) and len(st.targets) == 1 and isinstance(st.targets[0], ast.Attribute)
+                    and isinstance(st.targets[0].value, ast.Name) and st.targets[0].value.id == "cls"):
+                raise Untranslatable("%s: statement %s" % (qual, type(st).__name__))
+            a, v = st.targets[0].attr, st.value
+            def is_call(v, mod, name):
+                return isinstance(v, ast.Call) and not v.args and not v.keywords and (
+                    (isinstance(v.func, ast.Attribute) and isinstance(v.func.value, ast.Name) and v.func.value.id == mod and v.func.attr == name)
+                    or (mod is None and isinstance(v.func, ast.Name) and v.func.id == name))
+            if a == "__instances" and is_call(v, "weakref", "WeakValueDictionary"): fields["weak"] = "fun _ => none"
+            elif a == "__strong_cache" and is_call(v, None, "OrderedDict"): fields["strong"] = "[]"
+            elif a == "__strong_cache_size" and isinstance(v, ast.Constant) and isinstance(v.value, int) and v.value is not True and v.value >= 0:
+                fields["cap"] = str(v.value)
+            elif a in ("_cache_lock", "__cache_lock") and is_call(v, "_thread", "allocate_lock"): fields["lock"] = "none"
+            elif a == "__instance" and isinstance(v, ast.Constant) and v.value is None: fields["single"] = "none"
+            else: raise Untranslatable("%s sets cls.%s" % (qual, a))
+        want = {"single"} if cls == "_TzSingleton" else {"weak", "strong", "cap", "lock"}
+        if set(fields) != want: raise Untranslatable("%s sets %s" % (qual, sorted(fields)))
+        # every attribute the constructor does not set is absent; the record's other fields are ghost state of the machine
+        body = ", ".join("%s := %s" % (k, fields[k]) for k in ("weak", "strong", "cap", "lock", "single") if k in fields)
+        out.append("/-- translated from `%s`: the shared state of the factory right after the class is created -/\ndef %s : Fact.Glob :=\n  { %s }\n" % (qual, lean, body))
+        fps[qual] = hashlib.sha256(ast.dump(fn).encode()).hexdigest()[:16]
+    return "\n".join(out), fps
+
+
 def translate_files(src_root, groups):
     tree = ast.parse(open(os.path.join(src_root, "tz", "tz.py")).read())
     common = ast.parse(open(os.path.join(src_root, "tz", "_common.py")).read())
     text, fp = translate_parse_rfc(tree)
     text2, fps = translate_objects(tree, common)
     fps["tzical._parse_rfc"] = fp
-    return text + "\n" + text2, fps
+    text3, fps3 = translate_factory_inits(ast.parse(open(os.path.join(src_root, "tz", "_factories.py")).read()))
+    fps.update(fps3)
+    return text + "\n" + text2 + "\n" + text3, fps
 
 
 RFC_GROUPS = [("tz/tz.py", ["tzical._parse_rfc"])]
